@@ -1,5 +1,6 @@
 import SimuVerif.Lemmas.SurfaceSplitSwap
 import SimuVerif.Lemmas.C11_Remesh
+import Batteries.Tactic.OpenPrivate
 /-
   The executable bookkeeping model `Model/Remesh.lean` REFINES the abstract surface operations of
   `Model/Surface.lean` (what `Driver/C01.lean` validates at run time by comparing `Surface.canon`).
@@ -20,6 +21,88 @@ macro "bok " h:ident " with " x:rcasesPat " , " hx:rcasesPat : tactic =>
 macro "opt_ok " h:ident : tactic =>
   `(tactic| (split at $h:ident <;> first | (cases $h:ident; assumption) | cases $h:ident))
 
+/-! ## 0. `Array.qsort` returns a permutation (not in core / Batteries / Mathlib at this version) -/
+end Simu.Remesh
+open private Array.qsort.sort Array.qpartition.loop from Init.Data.Array.QSort.Basic
+namespace Simu.Remesh.QS
+variable {α : Type}
+
+theorem loop_perm {n : Nat} (lt : α → α → Bool) (lo hi : Nat) (hhi : hi < n) (pivot : α) :
+    ∀ (d : Nat) (as : Vector α n) (i k : Nat) (ilo : lo ≤ i) (ik : i ≤ k) (w : k ≤ hi), hi - k = d →
+      (Array.qpartition.loop lt lo hi hhi pivot as i k ilo ik w).2.Perm as := by
+  intro d
+  induction d with
+  | zero =>
+    intro as i k ilo ik w hd
+    rw [Array.qpartition.loop.eq_def]
+    have : ¬ k < hi := by omega
+    simp only [this, dite_false]
+    exact Vector.swap_perm _ _
+  | succ d ih =>
+    intro as i k ilo ik w hd
+    rw [Array.qpartition.loop.eq_def]
+    have : k < hi := by omega
+    simp only [this, dite_true]
+    split
+    · exact (ih _ _ _ _ _ _ (by omega)).trans (Vector.swap_perm _ _)
+    · exact ih _ _ _ _ _ _ (by omega)
+
+theorem ite_swap_perm {n : Nat} (as : Vector α n) (c : Bool) (i j : Nat) (hi : i < n) (hj : j < n) :
+    (if c = true then as.swap i j hi hj else as).Perm as := by
+  split
+  · exact Vector.swap_perm _ _
+  · exact Vector.Perm.refl _
+
+theorem qpartition_perm {n : Nat} (as : Vector α n) (lt : α → α → Bool) (lo hi : Nat) (w : lo ≤ hi)
+    (hlo : lo < n) (hhi : hi < n) : (Array.qpartition as lt lo hi w hlo hhi).2.Perm as := by
+  unfold Array.qpartition
+  simp only []
+  refine (loop_perm lt lo hi hhi _ _ _ _ _ _ _ _ rfl).trans ?_
+  refine (ite_swap_perm _ _ _ _ _ _).trans ?_
+  refine (ite_swap_perm _ _ _ _ _ _).trans ?_
+  exact ite_swap_perm _ _ _ _ _ _
+
+theorem sort_perm {n : Nat} (lt : α → α → Bool) : ∀ (d : Nat) (as : Vector α n) (lo hi : Nat) (w : lo ≤ hi)
+    (hlo : lo < n) (hhi : hi < n), hi - lo ≤ d → (Array.qsort.sort lt as lo hi w hlo hhi).Perm as := by
+  intro d
+  induction d with
+  | zero =>
+    intro as lo hi w hlo hhi hd
+    rw [Array.qsort.sort.eq_def]
+    have : ¬ lo < hi := by omega
+    simp only [this, dite_false]
+    exact Vector.Perm.refl _
+  | succ d ih =>
+    intro as lo hi w hlo hhi hd
+    rw [Array.qsort.sort.eq_def]
+    split
+    · rename_i h1
+      have hp := qpartition_perm as lt lo hi w hlo hhi
+      generalize Array.qpartition as lt lo hi w hlo hhi = r at hp
+      obtain ⟨⟨mid, hmid⟩, as'⟩ := r
+      simp only
+      split
+      · exact hp
+      · rename_i h2
+        refine (ih _ _ _ _ _ _ (by omega)).trans ?_
+        exact (ih _ _ _ _ _ _ (by omega)).trans hp
+    · exact Vector.Perm.refl _
+
+theorem qsort_perm (as : Array α) (lt : α → α → Bool) : (as.qsort lt).Perm as := by
+  unfold Array.qsort
+  split
+  · exact Array.Perm.refl _
+  · exact (sort_perm lt _ _ _ _ _ _ _ (Nat.le_refl _)).toArray
+
+/-- the list sorted by `Array.qsort` is a permutation of the input -/
+theorem qsort_toList_perm (l : List α) (lt : α → α → Bool) : (l.toArray.qsort lt).toList.Perm l :=
+  Array.perm_iff_toList_perm.1 (qsort_perm l.toArray lt)
+
+end Simu.Remesh.QS
+namespace Simu.Remesh
+open Simu Simu.Surface
+open Simu.C11 (bind_ok newSlot)
+
 /-! ## 1. triangles up to rotation -/
 
 /-- same multiset of triangles up to cyclic rotation of each triangle -/
@@ -31,6 +114,15 @@ theorem TriEquiv.trans {S T U : List Tri} (h1 : TriEquiv S T) (h2 : TriEquiv T U
   List.Perm.trans h1 h2
 theorem triEquiv_equivalence : Equivalence TriEquiv := ⟨TriEquiv.refl, TriEquiv.symm, TriEquiv.trans⟩
 theorem TriEquiv.of_perm {S T : List Tri} (h : S.Perm T) : TriEquiv S T := h.map _
+
+/-- the run-time test of the driver (`absCheck`: equal `Surface.canon`) implies `TriEquiv` -/
+theorem TriEquiv.of_canon {S T : List Tri} (h : canon S = canon T) : TriEquiv S T := by
+  unfold TriEquiv
+  have hS := QS.qsort_toList_perm (S.map canonTri) triLt
+  have hT := QS.qsort_toList_perm (T.map canonTri) triLt
+  unfold canon at h
+  rw [h] at hS
+  exact hS.symm.trans hT
 
 theorem canonTri_cases (t : Tri) :
     canonTri t = t ∨ canonTri t = (t.2.1, t.2.2, t.1) ∨ canonTri t = (t.2.2, t.1, t.2.1) := by
@@ -939,5 +1031,334 @@ theorem swap_flip {T : List Tri} {t1 t2 : Tri} {L : List Tri}
     · exact hadj (adj_of_hasDir m8 (h ▸ (hasDir_opp hd8).2))
     · exact hdb h
     · exact hcd h.symm
+
+/-! ## 8. `swap_edge` refines `swapT` -/
+
+theorem triEquiv_iff_map {S T : List Tri} :
+    TriEquiv S T ↔ (S : Multiset Tri).map canonTri = (T : Multiset Tri).map canonTri := by
+  unfold TriEquiv
+  rw [Multiset.map_coe, Multiset.map_coe, Multiset.coe_eq_coe]
+
+theorem four_nodes {t : Tri} {a b c d : Nat} (ha : hasNode t a = true) (hb : hasNode t b = true)
+    (hd : hasNode t d = true) (hc : hasNode t c = true) (hab : a ≠ b) (hda : d ≠ a) (hdb : d ≠ b)
+    (hca : c ≠ a) (hcb : c ≠ b) (hcd : c ≠ d) : False := by
+  obtain ⟨x, y, z⟩ := t
+  simp only [hasNode_iff] at *
+  omega
+
+section
+variable {R : Type} [Add R] [Sub R] [Mul R] [Div R] [Neg R] [Lit R] [LT R] [LE R] [DecidableLT R]
+  [DecidableLE R] [DecidableEq R]
+
+/-- the edge index is sound: an entry found under the key of `{x, y}` names two different live faces that
+    both contain `x` and `y` -/
+def EdgeIdxSound (c : Cell R) : Prop := ∀ x y ed, getEdge c x y = some ed → EdgeFaces c ed x y
+
+theorem otherFace_spec {c : Cell R} {ed : Edge} {x y g f : Nat} (he : EdgeFaces c ed x y)
+    (h : ed.otherFace g = .ok f) :
+    f ≠ g ∧ ∃ u, (slots c)[f]? = some (some u) ∧ hasNode u x = true ∧ hasNode u y = true := by
+  obtain ⟨g1, g2, t1, t2, hg1, hg2, hg12, hs1, hs2, h1a, h1b, h2a, h2b⟩ := he
+  unfold Edge.otherFace at h
+  rw [hg1, hg2] at h
+  simp only at h
+  split at h
+  · rename_i hb
+    cases h
+    have : g1 = g := by simpa using hb
+    exact ⟨fun h => hg12 (this.trans h.symm), t2, hs2, h2a, h2b⟩
+  · rename_i hb
+    cases h
+    exact ⟨by simpa using hb, t1, hs1, h1a, h1b⟩
+
+/-- a live slot other than the two deleted ones survives the two deletions and the two additions -/
+theorem survive {c c2 c3 c4 c5 : Cell R} {g1 g2 f3 f4 : Nat} {t1 t2 x3 x4 : Tri}
+    (D1 : DelRes c c2 g1 t1) (D2 : DelRes c2 c3 g2 t2) (A3 : AddRes c3 c4 f3 x3) (A4 : AddRes c4 c5 f4 x4)
+    {f : Nat} {u : Tri} (hs : (slots c)[f]? = some (some u)) (h1 : f ≠ g1) (h2 : f ≠ g2) :
+    (slots c5)[f]? = some (some u) ∧ u ∈ abs c3 := by
+  have s3 : (slots c3)[f]? = some (some u) := by
+    rw [D2.slots_eq, List.getElem?_set_ne (Ne.symm h2), D1.slots_eq, List.getElem?_set_ne (Ne.symm h1)]
+    exact hs
+  have n3 : f ≠ f3 := fun h => A3.fresh u (h ▸ s3)
+  have s4 : (slots c4)[f]? = some (some u) := by rw [A3.other f n3]; exact s3
+  have n4 : f ≠ f4 := fun h => A4.fresh u (h ▸ s4)
+  exact ⟨by rw [A4.other f n4]; exact s4, by rw [abs_eq_live]; exact mem_live s3⟩
+
+theorem face_of_set_ne {fs : Array (Face R)} {i j : Nat} {x g : Face R} (hij : i ≠ j)
+    (h : (fs.set! i x)[j]? = some g) : fs[j]? = some g := by
+  simpa [hij] using h
+
+theorem swap_tail (fn : Fn R) (c5 : Cell R) (f3 f4 : Nat) (x3 x4 : Face R) :
+    slots (updFaceGeom fn (updFaceGeom fn
+        ({ c5 with faces := (c5.faces.set! f3 x3).set! f4 x4 } : Cell R) f3) f4)
+      = ((slots c5).set f3 (triOf x3)).set f4 (triOf x4) ∧
+    (updFaceGeom fn (updFaceGeom fn
+        ({ c5 with faces := (c5.faces.set! f3 x3).set! f4 x4 } : Cell R) f3) f4).freeFaces = c5.freeFaces := by
+  refine ⟨?_, ?_⟩
+  · rw [slots_updFaceGeom, slots_updFaceGeom]
+    show slotsA ((c5.faces.set! f3 x3).set! f4 x4) = _
+    rw [slotsA_set, slotsA_set]; rfl
+  · rw [freeFaces_updFaceGeom, freeFaces_updFaceGeom]
+
+/-- replacing the contents of two live slots -/
+theorem liveM_two_sets {L : List (Option Tri)} {i j : Nat} {a b y3 y4 : Tri} {M : Multiset Tri} (hij : i ≠ j)
+    (hi : L[i]? = some (some a)) (hj : L[j]? = some (some b)) (hL : liveM L = b ::ₘ a ::ₘ M) :
+    liveM ((L.set i (some y3)).set j (some y4)) = y3 ::ₘ y4 ::ₘ M := by
+  have E1 := liveM_set L i (some y3) (some a) hi
+  have E2 := liveM_set (L.set i (some y3)) j (some y4) (some b) (by rw [List.getElem?_set_ne hij]; exact hj)
+  simp only [o2m] at E1 E2
+  rw [hL] at E1
+  simp only [← Multiset.singleton_add] at E1 ⊢
+  have h1 : liveM ((L.set i (some y3)).set j (some y4)) + (({b} : Multiset Tri) + {a}) =
+      ({y3} + ({y4} + M)) + ({b} + {a}) := by
+    calc liveM ((L.set i (some y3)).set j (some y4)) + (({b} : Multiset Tri) + {a})
+        = (liveM ((L.set i (some y3)).set j (some y4)) + {b}) + {a} := by abel
+      _ = (liveM (L.set i (some y3)) + {a}) + {y4} := by rw [E2]; abel
+      _ = _ := by rw [E1]; abel
+  exact add_right_cancel h1
+
+/-- a triangle that contains two different nodes makes them adjacent -/
+theorem adj_of_contains {T : List Tri} (hn : NonDeg T) {u : Tri} (hu : u ∈ T) {x y : Nat} (hxy : x ≠ y)
+    (hx : hasNode u x = true) (hy : hasNode u y = true) : Adj T x y := by
+  rcases dir_of_contains (hn u hu) hxy hx hy with h | h
+  · exact adj_of_hasDir hu h
+  · exact adj_symm (adj_of_hasDir hu h)
+
+/-- two different live slots split the triangle multiset -/
+theorem absM_two_slots {c : Cell R} {g1 g2 : Nat} {t1 t2 : Tri} (hg12 : g1 ≠ g2)
+    (hs1 : (slots c)[g1]? = some (some t1)) (hs2 : (slots c)[g2]? = some (some t2)) :
+    ((abs c : List Tri) : Multiset Tri) = t1 ::ₘ t2 ::ₘ liveM (((slots c).set g1 none).set g2 none) := by
+  show absM c = _
+  rw [absM_eq]
+  have E1 := liveM_set (slots c) g1 none _ hs1
+  have E2 := liveM_set ((slots c).set g1 none) g2 none _ (by rw [List.getElem?_set_ne hg12]; exact hs2)
+  simp only [o2m, add_zero] at E1 E2
+  rw [← E1, ← E2]
+  simp only [← Multiset.singleton_add]
+  abel
+
+/-- the two faces of a sound edge of a closed simple surface traverse it in opposite directions -/
+theorem edge_dirs {T : List Tri} (hI : Inv T) {t1 t2 : Tri} {M : Multiset Tri}
+    (hT : (T : Multiset Tri) = t1 ::ₘ t2 ::ₘ M) {a b : Nat} (hab : a ≠ b)
+    (h1a : hasNode t1 a = true) (h1b : hasNode t1 b = true) (h2a : hasNode t2 a = true)
+    (h2b : hasNode t2 b = true) :
+    (hasDir t1 a b = true ∧ hasDir t2 b a = true) ∨ (hasDir t1 b a = true ∧ hasDir t2 a b = true) := by
+  have n1 := hI.nondeg _ (mem_of_coe_eq hT)
+  have n2 := hI.nondeg _ (mem_of_coe_eq (hT.trans (Multiset.cons_swap _ _ _)))
+  rcases dir_of_contains n1 hab h1a h1b with d1 | d1 <;> rcases dir_of_contains n2 hab h2a h2b with d2 | d2
+  · exact (two_dir_not_simple hT hI.simple d1 d2).elim
+  · exact Or.inl ⟨d1, d2⟩
+  · exact Or.inr ⟨d1, d2⟩
+  · exact (two_dir_not_simple hT hI.simple d1 d2).elim
+
+/-- **swap_edge refines `swapT`.**  Under the abstract guard `SwapGuard` and a sound edge index the code's own
+    guards do not fire (so the hypothesis "the operation is performed" is not needed), the two new faces are
+    either both flipped by `check_face_winding_order` or both left alone, and the result is the abstract swap
+    up to rotation of the two new triangles. -/
+theorem swapEdge_refines {fn : Fn R} {c c' : Cell R} {e : Edge}
+    (h : swapEdge fn c e = .ok c') (hf : FaceFreeOk c) (hI : Inv (abs c))
+    (hab : e.n1 ≠ e.n2) (he : EdgeFaces c e e.n1 e.n2) (hidx : EdgeIdxSound c)
+    (hg : SwapGuard (abs c) e.n1 e.n2) :
+    TriEquiv (abs c') (swapT (abs c) e.n1 e.n2) ∧ FaceFreeOk c' := by
+  obtain ⟨g1, g2, t1, t2, hg1, hg2, hg12, hs1, hs2, h1a, h1b, h2a, h2b⟩ := he
+  unfold swapEdge at h
+  simp only [] at h
+  bok h with f1id, hf1id
+  bok h with f2id, hf2id
+  have e1 : e.f1 = some f1id := by opt_ok hf1id
+  have e2 : e.f2 = some f2id := by opt_ok hf2id
+  rw [hg1] at e1; cases e1
+  rw [hg2] at e2; cases e2
+  bok h with f1, hf1
+  bok h with f2, hf2
+  bok h with cc, hcc
+  bok h with dd, hdd
+  bok h with eac, heac
+  bok h with ecb, hecb
+  bok h with ebd, hebd
+  bok h with eda, heda
+  bok h with f5, hf5
+  bok h with f8, hf8
+  bok h with f7, hf7
+  bok h with f6, hf6
+  -- the faces of the two slots
+  have hf1' : c.faces[g1]? = some f1 := by opt_ok hf1
+  have hf2' : c.faces[g2]? = some f2 := by opt_ok hf2
+  have hcc' : oppositeNode f1 e.n1 e.n2 = some cc := by opt_ok hcc
+  have hdd' : oppositeNode f2 e.n1 e.n2 = some dd := by opt_ok hdd
+  have heac' : getEdge c e.n1 cc = some eac := by opt_ok heac
+  have hecb' : getEdge c cc e.n2 = some ecb := by opt_ok hecb
+  have hebd' : getEdge c e.n2 dd = some ebd := by opt_ok hebd
+  have heda' : getEdge c dd e.n1 = some eda := by opt_ok heda
+  obtain ⟨f, hfa, _, ht1⟩ := slot_some_iff.1 hs1
+  rw [hf1'] at hfa; cases hfa
+  obtain ⟨f, hfa, _, ht2⟩ := slot_some_iff.1 hs2
+  rw [hf2'] at hfa; cases hfa
+  subst ht1; subst ht2
+  -- orientation, and the abstract guard in terms of the code's `cc`, `dd`
+  have hT0 := absM_two_slots hg12 hs1 hs2
+  have hdirs := edge_dirs hI hT0 hab h1a h1b h2a h2b
+  have hq : cc ≠ dd ∧ ¬ Adj (abs c) cc dd := by
+    rcases hdirs with ⟨d1, d2⟩ | ⟨d1, d2⟩
+    · obtain ⟨F1, F2⟩ := find_of_decomp hI.simple hT0 d1 d2
+      have := hg _ _ F1 F2
+      rwa [← opp_of_oppositeNode d1 hcc', ← opp_of_oppositeNode' d2 hdd'] at this
+    · obtain ⟨F1, F2⟩ := find_of_decomp hI.simple (hT0.trans (Multiset.cons_swap _ _ _)) d2 d1
+      have := hg _ _ F1 F2
+      rw [← opp_of_oppositeNode' d1 hcc', ← opp_of_oppositeNode d2 hdd'] at this
+      exact ⟨Ne.symm this.1, fun h => this.2 (adj_symm h)⟩
+  obtain ⟨hcca, hccb, hcc1⟩ := oppositeNode_some hcc'
+  obtain ⟨hdda, hddb, hdd2⟩ := oppositeNode_some hdd'
+  -- the neighbours across the four outer edges
+  obtain ⟨n51, u5, s5, h5a, h5c⟩ := otherFace_spec (hidx _ _ _ heac') hf5
+  obtain ⟨n81, u8, s8, h8c, h8b⟩ := otherFace_spec (hidx _ _ _ hecb') hf8
+  obtain ⟨n72, u7, s7, h7b, h7d⟩ := otherFace_spec (hidx _ _ _ hebd') hf7
+  obtain ⟨n62, u6, s6, h6d, h6a⟩ := otherFace_spec (hidx _ _ _ heda') hf6
+  -- the code's guards do not fire
+  split at h
+  · rename_i hgd
+    simp only [Bool.or_eq_true, beq_iff_eq] at hgd
+    rcases hgd with h56 | h78
+    · rw [h56, s6] at s5; cases s5
+      exact (hq.2 (adj_of_contains hI.nondeg (by rw [abs_eq_live]; exact mem_live s6) hq.1 h5c h6d)).elim
+    · rw [h78, s8] at s7; cases s7
+      exact (hq.2 (adj_of_contains hI.nondeg (by rw [abs_eq_live]; exact mem_live s8) hq.1 h8c h7d)).elim
+  split at h
+  · rename_i hgd
+    obtain ⟨ed, hed⟩ := Option.isSome_iff_exists.1 hgd
+    obtain ⟨k1, _, v1, _, _, _, _, sv1, _, hv1c, hv1d, _, _⟩ := hidx _ _ _ hed
+    exact (hq.2 (adj_of_contains hI.nondeg (by rw [abs_eq_live]; exact mem_live sv1) hq.1 hv1c hv1d)).elim
+  bok h with c2, h2
+  bok h with c3, h3
+  bok h with _, _
+  bok h with _, _
+  bok h with _, _
+  bok h with _, _
+  bok h with ⟨c4, f3⟩, h4
+  bok h with ⟨c5, f4⟩, h5
+  simp only [] at h
+  bok h with r5, hr5
+  bok h with r8, hr8
+  bok h with g3, hg3
+  bok h with g4, hg4
+  bok h with _, _
+  bok h with _, _
+  bok h with _, _
+  bok h with _, _
+  have hc' := Except.ok.inj h
+  clear h
+  -- the two deletions, the two additions
+  have D1 := deleteFace_spec h2 hs1
+  have D2 := deleteFace_spec h3 (t := (f2.n1, f2.n2, f2.n3))
+    (by rw [D1.slots_eq, List.getElem?_set_ne hg12]; exact hs2)
+  have ffo3 : FaceFreeOk c3 := D2.ffo (D1.ffo hf)
+  have hT : ((abs c : List Tri) : Multiset Tri) =
+      (f1.n1, f1.n2, f1.n3) ::ₘ (f2.n1, f2.n2, f2.n3) ::ₘ ((abs c3 : List Tri) : Multiset Tri) := by
+    show absM c = _ ::ₘ _ ::ₘ absM c3
+    rw [← D2.absM_eq, ← D1.absM_eq]
+  have A3 := addFace_spec h4 ffo3
+  have A4 := addFace_spec h5 A3.ffo
+  have no_cc_t2 : hasNode (f2.n1, f2.n2, f2.n3) cc = false := by
+    rw [Bool.eq_false_iff]; intro h
+    exact four_nodes h2a h2b hdd2 h hab hdda hddb hcca hccb hq.1
+  -- the reference faces are the neighbours across (a,c) and (c,b); they survive
+  have n52 : f5 ≠ g2 := by
+    intro h; rw [h, hs2] at s5; cases s5; rw [h5c] at no_cc_t2; cases no_cc_t2
+  have n82 : f8 ≠ g2 := by
+    intro h; rw [h, hs2] at s8; cases s8; rw [h8c] at no_cc_t2; cases no_cc_t2
+  obtain ⟨S5, M5⟩ := survive D1 D2 A3 A4 s5 n51 n52
+  obtain ⟨S8, M8⟩ := survive D1 D2 A3 A4 s8 n81 n82
+  have n34 : f3 ≠ f4 := fun h => A4.fresh _ (h ▸ A3.got)
+  have G3s : (slots c5)[f3]? = some (some (e.n1, dd, cc)) := by rw [A4.other f3 n34]; exact A3.got
+  have G4s := A4.got
+  have hr5' : c5.faces[f5]? = some r5 := by opt_ok hr5
+  have hr8' : c5.faces[f8]? = some r8 := by opt_ok hr8
+  have hg3' : c5.faces[f3]? = some g3 := by opt_ok hg3
+  have hg4'' : (c5.faces.set! f3 (checkWinding r5 g3))[f4]? = some g4 := by opt_ok hg4
+  have hg4' : c5.faces[f4]? = some g4 := face_of_set_ne n34 hg4''
+  obtain ⟨f, hfa, _, hu5⟩ := slot_some_iff.1 S5
+  rw [hr5'] at hfa; cases hfa
+  obtain ⟨f, hfa, _, hu8⟩ := slot_some_iff.1 S8
+  rw [hr8'] at hfa; cases hfa
+  obtain ⟨f, hfa, hg3u, hg3t⟩ := slot_some_iff.1 G3s
+  rw [hg3'] at hfa; cases hfa
+  obtain ⟨f, hfa, hg4u, hg4t⟩ := slot_some_iff.1 G4s
+  rw [hg4'] at hfa; cases hfa
+  obtain ⟨hS, hFF⟩ := swap_tail fn c5 f3 f4 (checkWinding r5 g3) (checkWinding r8 g4)
+  rw [triOf_checkWinding _ _ hg3u, triOf_checkWinding _ _ hg4u, hu5, hu8, hg3t, hg4t] at hS
+  rw [hc'] at hS hFF
+  have hS' := hS
+  have hFF' : c'.freeFaces = c5.freeFaces := hFF
+  have hL5 : liveM (slots c5) = (e.n2, cc, dd) ::ₘ (e.n1, dd, cc) ::ₘ absM c3 := by
+    rw [← absM_eq, A4.absM_eq, A3.absM_eq]
+  have hM := liveM_two_sets n34 G3s G4s hL5
+    (y3 := if cwFlip u5 (e.n1, dd, cc) = true then flipT (e.n1, dd, cc) else (e.n1, dd, cc))
+    (y4 := if cwFlip u8 (e.n2, cc, dd) = true then flipT (e.n2, cc, dd) else (e.n2, cc, dd))
+  rw [← hS', ← absM_eq] at hM
+  refine ⟨?_, ?_⟩
+  swap
+  · refine FaceFreeOk.of_slots ?_ (by rw [hFF']; exact A4.ffo.nodup)
+    intro i hi
+    rw [hFF'] at hi
+    have hi' := A4.ffo.slot hi
+    have i3 : f3 ≠ i := fun h => by rw [← h, G3s] at hi'; cases hi'
+    have i4 : f4 ≠ i := fun h => by rw [← h, G4s] at hi'; cases hi'
+    rw [hS', List.getElem?_set_ne i4, List.getElem?_set_ne i3]; exact hi'
+  rw [triEquiv_iff_map]
+  show (absM c').map canonTri = _
+  rw [hM]
+  rcases hdirs with ⟨d1, d2⟩ | ⟨d1, d2⟩
+  · have ec := opp_of_oppositeNode d1 hcc'
+    have ed := opp_of_oppositeNode' d2 hdd'
+    subst ec; subst ed
+    obtain ⟨k5, k8⟩ := swap_noflip hT hI d1 d2 hq.1 hq.2 M5 h5a h5c M8 h8c h8b
+    rw [k5, k8, swapT_coe hI.simple hT d1 d2]
+    simp only [Bool.false_eq_true, if_false, Multiset.map_cons]
+    rfl
+  · have ec := opp_of_oppositeNode' d1 hcc'
+    have ed := opp_of_oppositeNode d2 hdd'
+    subst ec; subst ed
+    obtain ⟨k5, k8⟩ := swap_flip hT hI d1 d2 hq.1 hq.2 M5 h5a h5c M8 h8c h8b
+    rw [k5, k8, swapT_coe hI.simple (hT.trans (Multiset.cons_swap _ _ _)) d2 d1]
+    simp only [if_true, flipT, Multiset.map_cons]
+    rw [canonTri_rot e.n1 _ _ ⟨Ne.symm hcca, hq.1, hdda⟩, canonTri_rot e.n2 _ _ ⟨Ne.symm hddb, Ne.symm hq.1, hccb⟩]
+    rfl
+
+end
+
+/-! ## 9. the theorems in the requested form, and the surface invariant through the concrete operations -/
+section
+variable {R : Type} [Add R] [Sub R] [Mul R] [Div R] [Neg R] [Lit R] [LT R] [LE R] [DecidableLT R]
+  [DecidableLE R] [DecidableEq R]
+
+/-- **split_edge refines `splitT`**: the live triangles after `split_edge` are, up to the order of the list
+    (not even a rotation is needed), the abstract split at the slot `add_node` hands out. -/
+theorem splitEdge_refines {fn : Fn R} {k : SplitConsts R} {c c' : Cell R} {e : Edge} {chk chk' : CheckSet}
+    (h : splitEdge fn k c e chk = .ok (c', chk')) (hf : FaceFreeOk c) (hI : Inv (abs c))
+    (hab : e.n1 ≠ e.n2) (he : EdgeFaces c e e.n1 e.n2) :
+    (abs c').Perm (splitT (abs c) e.n1 e.n2 (newSlot c)) ∧ FaceFreeOk c' :=
+  ⟨perm_of_absM (splitEdge_absM h hf hI hab he).1, (splitEdge_absM h hf hI hab he).2⟩
+
+theorem splitEdge_triEquiv {fn : Fn R} {k : SplitConsts R} {c c' : Cell R} {e : Edge} {chk chk' : CheckSet}
+    (h : splitEdge fn k c e chk = .ok (c', chk')) (hf : FaceFreeOk c) (hI : Inv (abs c))
+    (hab : e.n1 ≠ e.n2) (he : EdgeFaces c e e.n1 e.n2) :
+    TriEquiv (abs c') (splitT (abs c) e.n1 e.n2 (newSlot c)) :=
+  TriEquiv.of_perm (splitEdge_refines h hf hI hab he).1
+
+/-- the concrete split keeps the surface invariant (guard and freshness as in `C01.Enabled`) -/
+theorem splitEdge_inv {fn : Fn R} {k : SplitConsts R} {c c' : Cell R} {e : Edge} {chk chk' : CheckSet}
+    (h : splitEdge fn k c e chk = .ok (c', chk')) (hf : FaceFreeOk c) (hI : Inv (abs c))
+    (hab : e.n1 ≠ e.n2) (he : EdgeFaces c e e.n1 e.n2) (hfresh : Fresh (abs c) (newSlot c))
+    (hg : ∀ t1 t2, findDir (abs c) e.n1 e.n2 = some t1 → findDir (abs c) e.n2 e.n1 = some t2 →
+      opp t1 e.n1 e.n2 ≠ opp t2 e.n2 e.n1) : Inv (abs c') :=
+  (inv_triEquiv (splitEdge_triEquiv h hf hI hab he)).2 (split_inv hI _ _ _ hfresh hg)
+
+/-- the concrete swap keeps the surface invariant -/
+theorem swapEdge_inv {fn : Fn R} {c c' : Cell R} {e : Edge}
+    (h : swapEdge fn c e = .ok c') (hf : FaceFreeOk c) (hI : Inv (abs c))
+    (hab : e.n1 ≠ e.n2) (he : EdgeFaces c e e.n1 e.n2) (hidx : EdgeIdxSound c)
+    (hg : SwapGuard (abs c) e.n1 e.n2) : Inv (abs c') :=
+  (inv_triEquiv (swapEdge_refines h hf hI hab he hidx hg).1).2 (swap_inv hI _ _ hg)
+
+end
 
 end Simu.Remesh
